@@ -120,3 +120,34 @@ PROP["manifest"]["level_text"] += (
     "transport notification to the caller's handler exactly once, in order, with the caller's result "
     "(cache_is_identity_on_callbacks); Error values are not forwarded."
 )
+
+# --- bREG-2: Close while Poll calls are in flight (ReconnectClient.Poll / BaseClient.Poll; seeded change c18_seed8)
+PROP["modules"] += ["Gnmi.Props.C18Poll"]
+PROP["theorems"] += ["Gnmi.C18Poll." + t for t in [
+    "base_step_lifts", "close_returns_with_poll_in_flight", "poll_returns_after_close",
+    "both_return_with_polls", "doomed_progress_with_polls", "poll_holding_mu_deadlocks",
+    "mutant_close_blocked"]] + [
+    "Gnmi.ClientPoll." + t for t in ["preach_base", "poll_step_frame", "poll_progress", "noLock_reach",
+                                     "runPScenario_reach"]]
+PROP["assumptions"] += [
+    "Poll callers (Model/ClientPoll.lean wraps the client LTS; its own transitions are unchanged, so every C18 "
+    "theorem applies to the projection): Poll is called on a stream on which Connected was already delivered; the "
+    "effect of a Poll caller's impl.Close() after a failed Recv on a concurrent Recv of goroutine S on the same "
+    "instance (two receivers on one gRPC stream) is recorded but not fed back; hypothesis on the Impl as above "
+    "(the Send of the poll request and Recv return once the context is cancelled or the instance is closed)",
+]
+PROP["manifest"]["level_text"] += (
+    " Poll callers (Props/C18Poll.lean; LTS Model/ClientPoll.lean = the client LTS plus any number of Poll "
+    "caller threads following ReconnectClient.Poll -> BaseClient.Poll -> impl.Poll, run): Close never waits on a "
+    "Poll caller (close_returns_with_poll_in_flight: its transitions are enabled exactly as without Poll callers, "
+    "or it waits for a Subscribe whose context is cancelled); once the Subscribe context is cancelled every "
+    "in-flight Poll returns by transitions of its own within a rank (poll_returns_after_close); from every "
+    "doomed configuration a run without new sleep ends with Subscribe, Close and every Poll returned, and nothing "
+    "is stuck before (both_return_with_polls, doomed_progress_with_polls). The variant of seeded change c18_seed8 "
+    "(Poll holding p.mu across the blocking call) is refuted by a reachable configuration in which only the "
+    "environment's cancellation is enabled (poll_holding_mu_deadlocks). Tied to the code by `rc new poll`: "
+    "Reconnect(BaseClient|CacheClient) with a Poll query on the real gNMI transport over a scripted stream, 0..2 "
+    "Poll calls (answered / never answered / buffered / Send fails, overlapping), Close or cancel injected inside "
+    "the disconnect callback at every point or while the re-dial blocks; traces, return classes of Subscribe, "
+    "Close and every Poll, and monitors compared with the model's schedule (runPScenario_reach)."
+)
